@@ -154,7 +154,7 @@ func (g *sgen) midEvents() {
 }
 
 // events that leave the shape as it is come first; the second half are the kinds of the large universes
-var scaleMidKinds = []string{"anc", "anc", "self", "reopen", "reopen", "fail", "fail", "alive",
+var scaleMidKinds = []string{"anc", "anc", "self", "reopen", "reopen", "fail", "fail", "alive", "inactive-connect", "inactive-connect",
 	"anc", "cross", "cut", "cut", "recut", "death", "restart-family", "generic", "generic", "generic"}
 
 func (g *sgen) aimed(kind string) {
@@ -205,6 +205,8 @@ func (g *sgen) aimed(kind string) {
 		default:
 			g.emit(Op{K: "connect", A: hub, B: x})
 		}
+	case "inactive-connect":
+		inactiveConnect(g.t, g.m, g.n, g.emit, g.fresh)
 	default:
 		g.lgen.aimed(kind)
 	}
@@ -247,6 +249,7 @@ func genScale(t *rapid.T) Case {
 	c.IDs = drawIDs(t, n)
 	c.DB = rapid.SampledFrom([]string{"fresh", "existed", "golden"}).Draw(t, "db")
 	c.Init = []int{0}
+	c.Cfg = genCfg(t, c.Scale)
 	g := &sgen{lgen: newLgen(t, &c, n), next: 1}
 	g.scale = true
 
@@ -358,13 +361,13 @@ func genScale(t *rapid.T) Case {
 	switch c.Scale {
 	case "chain-depth":
 		forced = []string{"anc-bottom", rapid.SampledFrom([]string{"anc-bottom", "anc-bottom", "reopen", "cut", "self"}).Draw(t, "forced")}
-		kinds = []string{"anc-bottom", "anc-bottom", "anc", "anc", "self", "cut", "recut", "recut", "cross", "death", "reopen", "alive", "restart-family", "generic", "generic"}
+		kinds = []string{"anc-bottom", "anc-bottom", "anc", "anc", "self", "cut", "recut", "recut", "cross", "death", "reopen", "alive", "restart-family", "generic", "generic", "inactive-connect", "inactive-connect"}
 	case "fan-out":
 		forced = []string{"one-more", rapid.SampledFrom([]string{"hub-death", "hub-death", "hub-death", "hub-child", "hub-child", "reopen"}).Draw(t, "forced")}
-		kinds = []string{"one-more", "one-more", "hub-death", "hub-child", "hub-child", "hub-child", "anc", "cross", "reopen", "recut", "restart-family", "generic", "generic"}
+		kinds = []string{"one-more", "one-more", "hub-death", "hub-child", "hub-child", "hub-child", "anc", "cross", "reopen", "recut", "restart-family", "generic", "generic", "inactive-connect", "inactive-connect"}
 	case "agents":
 		forced = []string{rapid.SampledFrom([]string{"generic", "reopen", "cross", "anc"}).Draw(t, "forced")}
-		kinds = []string{"anc", "anc", "cross", "cross", "cut", "recut", "death", "hub-death", "hub-child", "reopen", "restart-family", "generic", "generic", "generic"}
+		kinds = []string{"anc", "anc", "cross", "cross", "cut", "recut", "death", "hub-death", "hub-child", "reopen", "restart-family", "generic", "generic", "generic", "inactive-connect", "inactive-connect"}
 	default:
 		kinds = append([]string{}, largeKinds...)
 	}
@@ -537,6 +540,8 @@ func classifyScale(c Case) core.Class {
 	if mid {
 		cl.Labels = append(cl.Labels, "events-in-the-middle-of-the-bulk")
 	}
+	cl.Labels = append(cl.Labels, cfgLabels(c)...)
+	cl.Labels = append(cl.Labels, inactiveLabels(s)...)
 	cl.NonTrivial = driven != "" && (s.secondLink || s.reparent || s.selfc || s.ancc)
 	cl.Fingerprint = fmt.Sprintf("%s|%s|reached=%s|cyclic=%s|mid=%v|reopen=%v|death=%s", c.Scale, c.Build, driven, scaleBucket(s.ancMaxDist), mid, s.reopens > 0, scaleBucket(s.deathLinks))
 	return cl
@@ -552,4 +557,4 @@ func TestC09c(t *testing.T) {
 	})
 }
 
-const scaleRule = "SCALE dimension of the histories of (b): every count the subject has is driven, by a loop of the same real events, to a value from the threshold-adjacent pool {63,64,65, 127,128,129, 255,256,257, 511,512,513, 999,1000,1001, 1023,1024,1025, 2047,2048,2049}, cut at what one case can afford (measured on the unchanged tree and listed below; env VERIF_C09_SCALE_CUT overrides), with events of the small histories BEFORE the bulk (0-3 generic events), IN THE MIDDLE of it (half of the histories: at one or two drawn values of the count - any, count/2, count-2, count-1 - one or two events from: a cyclic connect at a drawn distance, a self connect, restart, failed connect / failed disconnect, markalive, link across trees, disconnect in the middle, a cut-off subtree root named by its own descendant, death of an inner agent, a restart family, a generic event; the bulk then goes on until the count is reached in the model forest or the universe - count + 2..10 agents - is used up; label events-in-the-middle-of-the-bulk) and AFTER it (one or two forced events: the count is reached, one more ordinary step; then 1-6 aimed events, one history in three ends with restart + one more event). Counts (label scale:<count>:<bucket>, bucket 64-129 | 255-513 | 999-1025 | 2047-4097 by the value REACHED in the model forest - a bucket extends 16 past its last pool value because the events after the bulk go one step further; off-pool otherwise): chain-depth (6 histories in 15; quick up to 513, thorough up to 1025; build:up - every level is a new top-level agent (DEMON_INIT) that reports the connect of the present root, 0.5 s at 257 / 1.2 s at 513 / 2.9 s at 1025; build:down - every level is a connect naming a new agent sent by the bottom agent, each walks the stored links to the root: 0.7 s at 129 / 2.4 s at 257 / 8.8 s at 513 / 36 s at 1025, hence only up to 129 quick, 257 thorough; build:mixed - up to count-j, the last j = 1..8 levels down, so that connects of new agents cross the threshold; build:stack - segments of 16-65 levels built down below a new top-level agent and linked below the bottom of the chain: connects of known agents sent from the depth reached); fan-out (3 in 15; up to 1025 quick, 2049 thorough: links of one agent, build:new - connects naming new agents, 0.3 s at 257 / 0.4 s at 513 / 1.5 s at 1025 - build:adopted - each child registers top-level first - or a mix; after the bulk one more link, then the hub dies (exit / killdate / markdead: label scale:links-at-death:<bucket>, 3.5 s at 1025), disconnects its first / last / any child, is named by a child, names a child again, or the teamserver restarts); agents (2 in 15; up to 1025 quick, 2049 thorough: a random forest, every new agent registers top-level (1 in 4) or is connected below a random known agent; 0.4 s at 257, 3-4 s at 1025); reconnects (2 in 15; up to 1025: in a universe of 4-8 agents one agent is named again and again until it has been re-linked count times - by two senders in turn, by its current parent, by any agent incl. its own descendants; every event with the full oracle; 1.3 s at 1025); restarts (2 in 15; quick up to 513, thorough 1025: a small graph with stored links of inactive sessions, then restart after restart, about one in 40 followed by small events; 0.8 s at 513, 2.8 s at 1025). Aimed cyclic connects at scale (label scale:cyclic-connect-distance:<bucket> = greatest distance attempted): the deepest agent (or a deep one) names its ancestor d hops up, d from the highest pool bracket that starts at or below the depth, clamped to the depth (3 in 8: e.g. 255, 256, 257 at depths 255-510), the bracket below (1 in 8), depth-1 or depth (2 in 8), {1,2,15,16,17} (1 in 8) or random; every chain history has at least one from the bottom agent; the same distances are used when a cut-off subtree root is named by its own descendant. Oracle: the one of (a)/(b), unchanged, evaluated at CHECKPOINTS: bulk events (Op.q) are delivered like all others and each is followed by its own post-condition only (a connect that names neither the sender nor an agent on the sender's Parent chain leaves the named agent with Parent == sender; a registration is acknowledged; 20 s watchdog); the invariants over Parent / Links / TS_Links and the routing tasks (one per agent without links) are evaluated at the end of every bulk run (signature ...|after=bulk), after every event that is not part of one, after every restart and at the end of the history. Non-trivial: the driven count reached a bucket and the history has a second link, a re-parenting or a self/ancestor connect; distinct = (count, build, bucket reached, bucket of the greatest cyclic distance, events in the middle, restart, bucket of links at death)"
+const scaleRule = "SCALE dimension of the histories of (b): every count the subject has is driven, by a loop of the same real events, to a value from the threshold-adjacent pool {63,64,65, 127,128,129, 255,256,257, 511,512,513, 999,1000,1001, 1023,1024,1025, 2047,2048,2049}, cut at what one case can afford (measured on the unchanged tree and listed below; env VERIF_C09_SCALE_CUT overrides), with events of the small histories BEFORE the bulk (0-3 generic events), IN THE MIDDLE of it (half of the histories: at one or two drawn values of the count - any, count/2, count-2, count-1 - one or two events from: a cyclic connect at a drawn distance, a self connect, restart, failed connect / failed disconnect, markalive, link across trees, disconnect in the middle, a cut-off subtree root named by its own descendant, death of an inner agent, a restart family, a generic event; the bulk then goes on until the count is reached in the model forest or the universe - count + 2..10 agents - is used up; label events-in-the-middle-of-the-bulk) and AFTER it (one or two forced events: the count is reached, one more ordinary step; then 1-6 aimed events, one history in three ends with restart + one more event). Counts (label scale:<count>:<bucket>, bucket 64-129 | 255-513 | 999-1025 | 2047-4097 by the value REACHED in the model forest - a bucket extends 16 past its last pool value because the events after the bulk go one step further; off-pool otherwise): chain-depth (6 histories in 15; quick up to 513, thorough up to 1025; build:up - every level is a new top-level agent (DEMON_INIT) that reports the connect of the present root, 0.5 s at 257 / 1.2 s at 513 / 2.9 s at 1025; build:down - every level is a connect naming a new agent sent by the bottom agent, each walks the stored links to the root: 0.7 s at 129 / 2.4 s at 257 / 8.8 s at 513 / 36 s at 1025, hence only up to 129 quick, 257 thorough; build:mixed - up to count-j, the last j = 1..8 levels down, so that connects of new agents cross the threshold; build:stack - segments of 16-65 levels built down below a new top-level agent and linked below the bottom of the chain: connects of known agents sent from the depth reached); fan-out (3 in 15; up to 1025 quick, 2049 thorough: links of one agent, build:new - connects naming new agents, 0.3 s at 257 / 0.4 s at 513 / 1.5 s at 1025 - build:adopted - each child registers top-level first - or a mix; after the bulk one more link, then the hub dies (exit / killdate / markdead: label scale:links-at-death:<bucket>, 3.5 s at 1025), disconnects its first / last / any child, is named by a child, names a child again, or the teamserver restarts); agents (2 in 15; up to 1025 quick, 2049 thorough: a random forest, every new agent registers top-level (1 in 4) or is connected below a random known agent; 0.4 s at 257, 3-4 s at 1025); reconnects (2 in 15; up to 1025: in a universe of 4-8 agents one agent is named again and again until it has been re-linked count times - by two senders in turn, by its current parent, by any agent incl. its own descendants; every event with the full oracle; 1.3 s at 1025); restarts (2 in 15; quick up to 513, thorough 1025: a small graph with stored links of inactive sessions, then restart after restart, about one in 40 followed by small events; 0.8 s at 513, 2.8 s at 1025). Aimed cyclic connects at scale (label scale:cyclic-connect-distance:<bucket> = greatest distance attempted): the deepest agent (or a deep one) names its ancestor d hops up, d from the highest pool bracket that starts at or below the depth, clamped to the depth (3 in 8: e.g. 255, 256, 257 at depths 255-510), the bracket below (1 in 8), depth-1 or depth (2 in 8), {1,2,15,16,17} (1 in 8) or random; every chain history has at least one from the bottom agent; the same distances are used when a cut-off subtree root is named by its own descendant. Oracle: the one of (a)/(b), unchanged, evaluated at CHECKPOINTS: bulk events (Op.q) are delivered like all others and each is followed by its own post-condition only (a connect that names neither the sender nor an agent on the sender's Parent chain leaves the named agent with Parent == sender; a registration is acknowledged; 20 s watchdog); the invariants over Parent / Links / TS_Links and the routing tasks (one per agent without links) are evaluated at the end of every bulk run (signature ...|after=bulk), after every event that is not part of one, after every restart and at the end of the history. Non-trivial: the driven count reached a bucket and the history has a second link, a re-parenting or a self/ancestor connect; distinct = (count, build, bucket reached, bucket of the greatest cyclic distance, events in the middle, restart, bucket of links at death) The CONFIGURATION / ENVIRONMENT dimension and the inactive-connect family of (b) apply here as well (half of the histories on the default; labels cfg:*, env:tz=*, connect-by-inactive-sender:*, inactive-sender:*; with scale restarts at most one operator is connected because every restart connects them again)."
